@@ -193,3 +193,53 @@ Proof.
   cbn [map]. inversion H as [|? ? Hp _]; subst. unfold in_i64 in Hp.
   rewrite list_min_absorb, list_max_absorb by lia. reflexivity.
 Qed.
+
+(* ------------------------------------------------------------------ *)
+(** * integral without GROUP BY time *)
+Section Integral.
+Context {F : Type} (fo : fops F).
+
+Lemma iwindow_nowin o t :
+  io_interval o = 0 ->
+  iwindow o t = if io_asc o then (io_start o, wrap64 (io_end o + 1)) else (wrap64 (io_end o + 1), io_start o).
+Proof. intro H. unfold iwindow, window. rewrite H. cbn. destruct (io_asc o); reflexivity. Qed.
+
+Definition int_result (o : iopt) (acc : F) (l : list pt) : list (Z * F) :=
+  if last (map pt_t l) 0 =? int_start o then [] else [(int_start o, trapz_from fo o acc l)].
+
+Lemma int_loop_from o r : forall a sum,
+  no_cross o r ->
+  int_loop fo o {| i_sum := sum; i_prev := Some a; i_ws := int_start o; i_we := int_wend o |} r
+  = int_result o sum (a :: r).
+Proof.
+  induction r as [|p r IH]; intros a sum [Hi Hc].
+  - cbn [int_loop int_close i_prev i_ws i_sum]. unfold int_result. cbn [map last trapz_from].
+    destruct (pt_t a =? int_start o); reflexivity.
+  - inversion Hc as [|? ? Hp Hr]; subst.
+    cbn [int_loop]. unfold int_agg. cbn [i_prev i_sum i_ws i_we].
+    assert (L : forall acc, int_result o acc (a :: p :: r) =
+                            int_result o (if pt_t a =? pt_t p then acc
+                                          else trapez fo o acc (f_ofZ fo (pt_v p)) (f_ofZ fo (pt_v a)) (wrap64 (pt_t p - pt_t a))) (p :: r)).
+    { intro acc. unfold int_result. cbn [map]. change (last (pt_t a :: pt_t p :: map pt_t r) 0) with (last (pt_t p :: map pt_t r) 0).
+      destruct (_ =? int_start o); reflexivity. }
+    rewrite L.
+    destruct (pt_t a =? pt_t p) eqn:E.
+    + cbn [app]. apply IH. split; assumption.
+    + replace ((io_asc o && (pt_t p >=? int_wend o)) || (negb (io_asc o) && (pt_t p <=? int_wend o))) with false
+        by (destruct (io_asc o); cbn; lia).
+      cbn [app]. apply IH. split; assumption.
+Qed.
+
+Lemma integral_eq_def o ps : no_cross o ps -> integral_run fo o ps = integral_def fo o ps.
+Proof.
+  intros [Hi Hc]. destruct ps as [|p r]; [reflexivity|].
+  inversion Hc as [|? ? Hp Hr]; subst.
+  unfold integral_run, integral_def. cbn [int_loop]. unfold int_agg at 1. cbn [istate0 i_prev i_sum].
+  rewrite iwindow_nowin by assumption.
+  assert (E : (let '(ws, we) := if io_asc o then (io_start o, wrap64 (io_end o + 1)) else (wrap64 (io_end o + 1), io_start o) in
+               ({| i_sum := f_ofZ fo 0; i_prev := Some p; i_ws := (if ws =? MinTime then 0 else ws); i_we := we |}, @nil (Z * F)))
+              = ({| i_sum := f_ofZ fo 0; i_prev := Some p; i_ws := int_start o; i_we := int_wend o |}, [])).
+  { unfold int_start, int_wend. destruct (io_asc o); reflexivity. }
+  rewrite E. cbn [app]. rewrite int_loop_from by (split; assumption). reflexivity.
+Qed.
+End Integral.
